@@ -1,4 +1,6 @@
 import NexoVerif.Model.NetRun
+import NexoVerif.Model.DropM
+import NexoVerif.Extracted
 /-! Line protocol for the `net` engine (M-NET).  See harness/src/engines/net.rs for the grammar. -/
 namespace Driver.Net
 open NexoVerif.Net
@@ -11,6 +13,9 @@ structure DSt where
   terminated : Bool := false
   dead : List Nat := []
   srcs : List (Nat × List Conn) := []
+  simExists : Bool := false
+  dropped : Bool := false
+  timeoutSeen : Bool := false
 
 def setModel (b : Bench) (i : Nat) (f : MDef → MDef) : Bench :=
   { models := (List.range b.models.length).map fun j =>
@@ -59,6 +64,30 @@ def showReport (d : DSt) (s : St) : String :=
 
 def tasksOf (d : DSt) (extra : List Nat) : List Nat := extra ++ List.range d.b.models.length
 
+/-- the ownership state (M-DROP) of the simulation's executor derived from the message-passing state (M-NET): one
+task per model of the simulation, alive and registered; dropping a model's future drops its mailbox, which wakes
+the tasks blocked on a send to it, and the reply channel of the query it is serving, which wakes the requester -/
+def dropState (d : DSt) : NexoVerif.DropM.St :=
+  let sims := simBoxes d
+  let blockedOn (m : Nat) : List Nat := sims.filter fun t =>
+    (d.s.task t).cur.any fun sub => sub.st == .toPush && sub.dst == .box m
+  { n := d.b.models.length,
+    task := fun m =>
+      if sims.contains m then
+        { fut := true, token := true,
+          wakesOnDrop := blockedOn m ++ (match (d.s.task m).serving with | some (r, _) => if sims.contains r then [r] else [] | none => []) }
+      else {} }
+
+def dropReport (d : DSt) : String :=
+  let cfg : NexoVerif.DropM.Cfg :=
+    ⟨NexoVerif.Extracted.dropWorkerHandsOverFastSlot, NexoVerif.Extracted.dropWorkerHandsOverLocalQueue,
+     NexoVerif.Extracted.dropMtUnsetsActiveTasks && NexoVerif.Extracted.dropStUnsetsActiveTasks⟩
+  let s' := NexoVerif.DropM.dropExecutor cfg 0 none (dropState d)
+  let sims := simBoxes d
+  let once := (sims.filter fun m => (s'.task m).futDrops == 1 && !(s'.task m).fut).length
+  let res := if s'.panicked then "panicked" else "returned"
+  s!"dropped {res} once={once}/{sims.length} leaked=0 threads=ok after=quiet"
+
 def parseDst (kind v : String) : Option Dst :=
   match kind, v.toNat? with
   | "box", some j => some (.box j)
@@ -104,9 +133,64 @@ def step (d : DSt) (ws : List String) : DSt × String :=
       let cur := ((d.srcs.find? (·.1 == sid)).map (·.2)).getD []
       ({ d with srcs := (d.srcs.filter (·.1 != sid)) ++ [(sid, cur ++ [c])] }, "ok")
     | _, _, _, _, _ => (d, "bad-op")
+  | ["wod", th, n, "waiters", ws, "edges", es, "panic", pk, "to", to] =>
+    match th.toNat?, n.toNat? with
+    | some th, some n =>
+      let csv (x : String) : List Nat := if x == "-" then [] else (x.splitOn ",").filterMap (·.toNat?)
+      let waiters := csv ws
+      let edges : List (Nat × Nat) := if es == "-" then [] else (es.splitOn ",").filterMap fun e =>
+        match e.splitOn ">" with
+        | [a, b] => match a.toNat?, b.toNat? with | some a, some b => some (a, b) | _, _ => none
+        | _ => none
+      let tos := csv to
+      let panics := pk.toNat?.isSome
+      -- on a multi-threaded executor the recipients scheduled by the panicking handler are still held by its
+      -- worker: the last one in the fast slot, the others in its local queue
+      let held (t : Nat) : NexoVerif.DropM.Loc :=
+        if panics && th > 1 && tos.contains t then (if tos.getLast? == some t then .fast 0 else .wlocal 0) else .none
+      let cfg : NexoVerif.DropM.Cfg :=
+        if th > 1 then ⟨NexoVerif.Extracted.dropWorkerHandsOverFastSlot, NexoVerif.Extracted.dropWorkerHandsOverLocalQueue,
+                        NexoVerif.Extracted.dropMtUnsetsActiveTasks⟩
+        else ⟨true, true, NexoVerif.Extracted.dropStUnsetsActiveTasks⟩
+      let s0 : NexoVerif.DropM.St :=
+        { n := n,
+          task := fun t =>
+            if t < n then
+              { fut := true, token := true, loc := held t,
+                wakesOnDrop := (edges.filter fun e => e.1 == t && waiters.contains e.2).map (·.2) }
+            else {} }
+      let s1 := NexoVerif.DropM.dropExecutor cfg 0 none s0
+      let once := ((List.range n).filter fun t => (s1.task t).futDrops == 1 && !(s1.task t).fut).length
+      let res := if panics then "panic" else "ok"
+      (d, if s1.panicked then s!"wod - hung" else s!"wod {res} returned once={once}/{n}")
+    | _, _ => (d, "bad-op")
+  | ["nested", k, j] =>
+    match k.toNat?, j.toNat? with
+    | some k, some j =>
+      -- outer executor 0: k idle models (keys 0..k-1) and the host (key k); inner executor 1: j idle models (keys 0..j-1),
+      -- dropped from inside a handler of the outer one, i.e. while `ACTIVE_TASKS` designates the outer list
+      let cfg : NexoVerif.DropM.Cfg := ⟨true, true, NexoVerif.Extracted.dropStUnsetsActiveTasks⟩
+      let s0 : NexoVerif.DropM.St :=
+        { n := k + 1 + j,
+          task := fun t =>
+            if t ≤ k then { fut := true, token := true, exec := 0, key := t }
+            else if t < k + 1 + j then { fut := true, token := true, exec := 1, key := t - (k + 1) }
+            else {} }
+      let s1 := NexoVerif.DropM.dropExecutor cfg 1 (some 0) s0
+      let s2 := NexoVerif.DropM.dropExecutor cfg 0 none s1
+      let o := ((List.range k).filter fun t => (s2.task t).futDrops == 1).length
+      let i := ((List.range j).filter fun t => (s2.task (k + 1 + t)).futDrops == 1).length
+      (d, s!"nested ok outer={o}/{k} inner={i}/{j}")
+    | _, _ => (d, "bad-op")
+  | ["later", _, _, _] => if d.simExists && !d.dropped then (d, "ok") else (d, "no-sim")
+  | ["dropsim"] =>
+    if d.simExists && !d.dropped then
+      ({ d with dropped := true }, if d.timeoutSeen then "dropped excluded" else dropReport d)
+    else (d, "no-sim")
   | ["sev", sid, p] =>
     match sid.toNat?, p.toNat? with
     | some sid, some p =>
+      if d.dropped then (d, "no-sim") else
       if d.terminated then (d, "terminated | I  | H  | R  | K ") else
       let conns := ((d.srcs.find? (·.1 == sid)).map (·.2)).getD []
       let op : Op := conns.filterMap fun c => (accept c p).map fun p' => (c.dst, p', false)
@@ -114,7 +198,8 @@ def step (d : DSt) (ws : List String) : DSt × String :=
       let t := d.nextTask
       let s1 := if op.isEmpty then d.s else (NexoVerif.Net.step P (.spawn t [op]) d.s).getD d.s
       let s2 := runQ P (tasksOf d [t]) 200000 s1
-      ({ d with s := s2, nextTask := t + 1, terminated := showReport d s2 != "ok" }, renderDelta d d.s s2 (showReport d s2))
+      ({ d with s := s2, nextTask := t + 1, terminated := showReport d s2 != "ok",
+                timeoutSeen := d.timeoutSeen || showReport d s2 == "timeout" }, renderDelta d d.s s2 (showReport d s2))
     | _, _ => (d, "bad-op")
   | ["fault", i, kind, p] =>
     match i.toNat?, p.toNat? with
@@ -126,10 +211,12 @@ def step (d : DSt) (ws : List String) : DSt × String :=
     let s0 := St.init
     let s1 := (simBoxes d).foldl (fun s m => (NexoVerif.Net.step P (.init m) s).getD s) s0
     let s2 := runQ P (tasksOf d []) 200000 s1
-    ({ d with s := s2, terminated := showReport d s2 != "ok" }, renderDelta d s0 s2 (showReport d s2))
+    ({ d with s := s2, terminated := showReport d s2 != "ok", simExists := showReport d s2 == "ok",
+              timeoutSeen := d.timeoutSeen || showReport d s2 == "timeout" }, renderDelta d s0 s2 (showReport d s2))
   | ["ev", j, p] =>
     match j.toNat?, p.toNat? with
     | some j, some p =>
+      if d.dropped then (d, "no-sim") else
       if d.terminated then (d, "terminated | I  | H  | R  | K ") else
       -- `process_event` ignores send errors: an event addressed directly to a dropped mailbox is lost silently
       if d.dead.contains j then (d, "ok | I  | H  | R  | K ") else
@@ -137,18 +224,21 @@ def step (d : DSt) (ws : List String) : DSt × String :=
       let t := d.nextTask
       let s1 := (NexoVerif.Net.step P (.spawn t [[(.box j, p, false)]]) d.s).getD d.s
       let s2 := runQ P (tasksOf d [t]) 200000 s1
-      ({ d with s := s2, nextTask := t + 1, terminated := showReport d s2 != "ok" }, renderDelta d d.s s2 (showReport d s2))
+      ({ d with s := s2, nextTask := t + 1, terminated := showReport d s2 != "ok",
+                timeoutSeen := d.timeoutSeen || showReport d s2 == "timeout" }, renderDelta d d.s s2 (showReport d s2))
     | _, _ => (d, "bad-op")
   | ["qr", j, p] =>
     match j.toNat?, p.toNat? with
     | some j, some p =>
+      if d.dropped then (d, "no-sim") else
       if d.terminated then (d, "terminated | I  | H  | R  | K ") else
       if d.dead.contains j then (d, "bad-query | I  | H  | R  | K ") else
       let P := d.b.prog
       let t := d.nextTask
       let s1 := (NexoVerif.Net.step P (.spawn t [[(.box j, p, true)]]) d.s).getD d.s
       let s2 := runQ P (tasksOf d [t]) 200000 s1
-      ({ d with s := s2, nextTask := t + 1, terminated := showReport d s2 != "ok" }, renderDelta d d.s s2 (showReport d s2))
+      ({ d with s := s2, nextTask := t + 1, terminated := showReport d s2 != "ok",
+                timeoutSeen := d.timeoutSeen || showReport d s2 == "timeout" }, renderDelta d d.s s2 (showReport d s2))
     | _, _ => (d, "bad-op")
   | _ => (d, "bad-op")
 
